@@ -12,7 +12,7 @@ EXPLANATION = (
     "HKDF-Extract(salt, ikm‖0x00) / Expand(info=0x0030, 48) / from_okm with the pinned salt routed from the key-derivation "
     "entry points; each scheme method routes exactly (its tag, its message framing) to the core primitive - augmentation "
     "hashes to_bytes(pk)‖msg on sign, verify and aggregate-verify, proof of possession hashes to_bytes(pk) under the POP tag; "
-    "byte conversions of keys/proofs use the group's compressed encoding. Not decided: byte equality with a reference "
+    "byte conversions of keys/proofs use the group's compressed encoding; an aggregate / multi-signature is, under each scheme, the sum over `+` of one accumulation and element 0 exactly once. Not decided: byte equality with a reference "
     "implementation (needs execution) and the curve arithmetic of the backend."
 )
 RULE = "E1 constants vs IETF table; E1 routing via resolved generic args; E5 construction terms (value numbering + bytes normal form) vs pinned KeyGen/augmentation/PoP constructions"
@@ -55,5 +55,10 @@ def run(ctx):
         segs = B.nf(ev, ev.ret)
         ok = len(segs) == 1 and segs[0][0] == "v" and segs[0][1].op == "call" and B.cname(segs[0][1]) == "GroupEncoding::to_bytes"
         ctx.ob("E9.compressed", ty, ok, "byte form of %s is %s (want GroupEncoding::to_bytes = compressed encoding)" % (ty, B.show_nf(segs)), where=where(f))
+    # aggregates are the plain group sum of their parts (draft: Aggregate), every part exactly once
+    from . import flow as F
+
+    F.check_sum_once_of(ctx, "E4.sum-once", P, "<AggregateSignature<C> as TryFrom<&[Signature<C>]>>::try_from", "sigs", "AggregateSignature", 3)
+    F.check_sum_once_of(ctx, "E4.sum-once", P, "<MultiSignature<C> as TryFrom<&[Signature<C>]>>::try_from", "sigs", "MultiSignature", 2)
     ctx.assume("GroupEncoding::to_bytes of both backends is the ZCash/IETF compressed serialization (dependency contract)")
     ctx.assume("the backend's hash::<ExpandMsgXmd<Sha256>> implements hash_to_curve SSWU_RO of RFC 9380 (dependency contract)")
